@@ -2,80 +2,64 @@ package rules
 
 import (
 	"go/ast"
-	"go/token"
 	"go/types"
 
 	"osmcheck/core"
 )
 
 // c17G6: a way loses its own feature (is put into the skippable set) only when it has no interesting tag of its own.
-// Outside the multipolygon builder (whose outer-way rule deliberately discounts tags repeated on the relation, C16)
-// every store into the skippable set must be guarded by `!hasInterestingTags(w.Tags, nil)` for the same way w:
-// a non-nil ignore set makes ways with interesting tags disappear from the output.
-// Unexported anchors: field `skippable`, functions `hasInterestingTags`, `buildPolygon` (as in G3).
+//
+// Roles, not names:
+//   - the skippable set is the context field of type map[osm.WayID]struct{};
+//   - the interest predicate is a function of the package with signature func(osm.Tags, map[string]string) bool
+//     (second argument: tags to discount);
+//   - the multipolygon builder is any function that handles orb.MultiPolygon values or is called only from such
+//     functions; its outer-way rule deliberately discounts tags repeated on the relation (C16, not claimed).
+//
+// Outside the multipolygon builder every store into the skippable set must be controlled by the fact
+// "predicate(<way>.Tags, nil) is false" for the same way (decided on guard facts: any branch shape, boolean locals
+// and predicate helpers are looked through). When the store or the discount argument is a parameter of an
+// unexported helper the verdict is taken at each call site of the helper.
 func c17G6(r *core.R) {
-	pk := r.P.Pkg("osmgeojson")
-	if pk == nil {
-		r.Anchor("package osmgeojson")
+	o := c17LoadOptions(r)
+	if o == nil {
 		return
 	}
-	info := pk.TypesInfo
-	n := 0
-	for _, fi := range allFuncs(pk) {
-		par := parentsOf(r.P, fi)
-		ast.Inspect(fi.Decl.Body, func(x ast.Node) bool {
-			as, ok := x.(*ast.AssignStmt)
-			if !ok || len(as.Lhs) != 1 {
-				return true
+	if o.skip == nil {
+		r.Anchor("context field of type map[osm.WayID]struct{} (skippable ways)")
+		return
+	}
+	a := c17NewPkg(r.P, o.pk)
+	an := &c17G6An{r: r, o: o, a: a, poly: func(fn *c17Fn) bool { return a.polygonOnly(fn, map[*c17Fn]bool{}) }}
+	// the interest predicate by signature
+	for _, fn := range a.list {
+		sig := fn.Obj.Type().(*types.Signature)
+		if sig.Recv() == nil && sig.Params().Len() == 2 && sig.Results().Len() == 1 && c17IsBool(sig.Results().At(0).Type()) &&
+			namedPath(sig.Params().At(0).Type()) == core.ModulePath+".Tags" {
+			if m, ok := sig.Params().At(1).Type().Underlying().(*types.Map); ok && types.Identical(m.Key(), types.Typ[types.String]) {
+				an.pred = append(an.pred, fn.Obj)
 			}
-			ix, ok := ast.Unparen(as.Lhs[0]).(*ast.IndexExpr)
+		}
+	}
+	if len(an.pred) == 0 {
+		r.Anchor("interest predicate func(osm.Tags, map[string]string) bool in osmgeojson")
+		return
+	}
+	n := 0
+	for _, fn := range a.list {
+		fn := fn
+		ast.Inspect(fn.Decl.Body, func(x ast.Node) bool {
+			as, ok := x.(*ast.AssignStmt)
 			if !ok {
 				return true
 			}
-			f := fieldOf(info, ix.X)
-			if f == nil || f.Name() != "skippable" {
-				return true
-			}
-			n++
-			c := "skippable@" + fi.Name() + " " + src(r.P.Fset, ix.Index)
-			if fi.Obj.Name() == "buildPolygon" {
-				r.OKTrivial(c, as.Pos(), "inside the multipolygon builder: outer/inner way rules belong to C16 (not claimed)")
-				return true
-			}
-			wayObj := rootObj(info, ix.Index)
-			// innermost enclosing if
-			var ifs *ast.IfStmt
-			for p := par[as]; p != nil; p = par[p] {
-				if i, ok := p.(*ast.IfStmt); ok {
-					ifs = i
-					break
+			for _, l := range as.Lhs {
+				ix, ok := ast.Unparen(l).(*ast.IndexExpr)
+				if !ok || c17FieldOf(a.info, ix.X) != o.skip {
+					continue
 				}
-			}
-			if ifs == nil {
-				r.Bad(c, as.Pos(), "a way is made skippable unconditionally: its feature disappears although it may carry interesting tags")
-				return true
-			}
-			ue, ok := ast.Unparen(ifs.Cond).(*ast.UnaryExpr)
-			var call *ast.CallExpr
-			if ok && ue.Op == token.NOT {
-				call, _ = ast.Unparen(ue.X).(*ast.CallExpr)
-			}
-			fn := (*types.Func)(nil)
-			if call != nil {
-				fn = callee(info, call)
-			}
-			switch {
-			case call == nil || fn == nil || fn.Name() != "hasInterestingTags" || len(call.Args) != 2:
-				r.Unknown(c, ifs.Pos(), "guard `%s` is not `!hasInterestingTags(way.Tags, nil)`", src(r.P.Fset, ifs.Cond))
-			case rootObj(info, call.Args[0]) != wayObj || fieldOf(info, call.Args[0]) == nil || fieldOf(info, call.Args[0]).Name() != "Tags":
-				r.Bad(c, ifs.Pos(), "`%s` tests the tags of something other than the way being made skippable (%s)", src(r.P.Fset, ifs.Cond), wayObj.Name())
-			default:
-				id, isNil := ast.Unparen(call.Args[1]).(*ast.Ident)
-				if isNil && id.Name == "nil" {
-					r.OK(c, ifs.Pos(), "`%s`: the way is skipped only when it has no interesting tag at all", src(r.P.Fset, ifs.Cond))
-				} else {
-					r.Bad(c, ifs.Pos(), "`%s` discounts the tags in `%s`: a member way whose interesting tags also appear there gets no feature although the element carries interesting tags", src(r.P.Fset, ifs.Cond), src(r.P.Fset, call.Args[1]))
-				}
+				n++
+				an.store(fn, as, ix.Index, ix.Index, nil, 3)
 			}
 			return true
 		})
@@ -83,4 +67,168 @@ func c17G6(r *core.R) {
 	if n == 0 {
 		r.Anchor("stores into the skippable way set")
 	}
+}
+
+type c17G6An struct {
+	r    *core.R
+	o    *c17Opt
+	a    *c17Pkg
+	pred []*types.Func
+	poly func(*c17Fn) bool
+}
+
+func (an *c17G6An) isPred(f *types.Func) bool {
+	for _, p := range an.pred {
+		if p == f {
+			return true
+		}
+	}
+	return false
+}
+
+// store decides one store `skippable[key] = …` seen from function fn at node at (the store itself or, for a store
+// inside a helper, the call of the helper); key is the key in the terms of fn; ign, when non-nil, is the discount
+// argument (in the terms of fn) of a guard already found in the helper.
+func (an *c17G6An) store(fn *c17Fn, at ast.Node, key, shown ast.Expr, ign ast.Expr, depth int) {
+	r, a, info, fset := an.r, an.a, an.a.info, an.a.fset
+	c := "skippable@" + fn.Name() + " " + src(fset, shown)
+	if an.poly(fn) {
+		r.OKTrivial(c, at.Pos(), "inside the multipolygon builder (%s handles orb.MultiPolygon values or is called only from functions that do): outer/inner way rules belong to C16 (not claimed)", fn.Name())
+		return
+	}
+	key = stripDerefParen(a.resolve(fn, stripDerefParen(key)))
+	wayObj := rootObj(info, key)
+	if sel, ok := key.(*ast.SelectorExpr); ok {
+		wayObj = rootObj(info, a.resolveAlias(fn, sel.X))
+	}
+	callers := func(f func(cs c17CallSite)) bool {
+		if depth <= 0 || !a.onlyCalled(fn.Obj) {
+			return false
+		}
+		for _, cs := range a.calls[fn.Obj] {
+			f(cs)
+		}
+		return true
+	}
+	paramMap := func(cs c17CallSite) map[types.Object]ast.Expr {
+		m := map[types.Object]ast.Expr{}
+		sig := fn.Obj.Type().(*types.Signature)
+		for i := 0; i < sig.Params().Len() && i < len(cs.call.Args); i++ {
+			m[sig.Params().At(i)] = cs.call.Args[i]
+		}
+		if fn.Decl.Recv != nil && len(fn.Decl.Recv.List) == 1 && len(fn.Decl.Recv.List[0].Names) == 1 {
+			if sel, ok := ast.Unparen(cs.call.Fun).(*ast.SelectorExpr); ok {
+				m[info.Defs[fn.Decl.Recv.List[0].Names[0]]] = sel.X
+			}
+		}
+		return m
+	}
+	if ign == nil {
+		// find the controlling fact
+		b := fn.blockAt(at.Pos())
+		if b == nil {
+			r.Unknown(c, at.Pos(), "the store is not in the control-flow graph of %s", fn.Name())
+			return
+		}
+		var hit, other *guardFact
+		facts := fn.factsAt(b)
+		for i := range facts {
+			ft := &facts[i]
+			call, ok := ast.Unparen(ft.expr).(*ast.CallExpr)
+			if !ok || ft.val || len(call.Args) != 2 || !an.isPred(c17Callee(info, call)) {
+				continue
+			}
+			arg := stripDerefParen(a.resolve(fn, stripDerefParen(call.Args[0])))
+			tf := c17FieldOf(info, arg)
+			if tf != nil && namedPath(tf.Type()) == core.ModulePath+".Tags" && wayObj != nil {
+				if rootObj(info, a.resolveAlias(fn, arg.(*ast.SelectorExpr).X)) == wayObj {
+					hit = ft
+					break
+				}
+			}
+			other = ft
+		}
+		switch {
+		case hit != nil:
+			ign = ast.Unparen(hit.expr).(*ast.CallExpr).Args[1]
+			at = hit.expr
+		case other != nil:
+			r.Bad(c, other.expr.Pos(), "`%s` tests the tags of something other than the way being made skippable (%s)", src(fset, other.expr), src(fset, key))
+			return
+		default:
+			// the guard may be at the call sites of an unexported helper that only performs the store
+			if _, isParam := wayObj.(*types.Var); isParam && wayObj != nil && fn.isParam(wayObj) {
+				if callers(func(cs c17CallSite) {
+					m := paramMap(cs)
+					an.store(cs.fn, cs.call, c17Subst(info, key, m), c17Subst(info, key, m), nil, depth-1)
+				}) {
+					return
+				}
+			}
+			r.Bad(c, at.Pos(), "the way is made skippable without the test that it has no interesting tag of its own (no controlling `!%s(<way>.Tags, nil)`): its feature disappears although it may carry interesting tags", an.pred[0].Name())
+			return
+		}
+	}
+	// classify the discount argument
+	ign = ast.Unparen(ign)
+	if tv, ok := info.Types[ign]; ok && tv.IsNil() {
+		r.OK(c, at.Pos(), "`%s` is false at the store: the way is skipped only when it has no interesting tag at all", src(fset, at))
+		return
+	}
+	if id, ok := ign.(*ast.Ident); ok {
+		if id.Name == "nil" && info.Uses[id] == types.Universe.Lookup("nil") {
+			r.OK(c, at.Pos(), "`%s` is false at the store: the way is skipped only when it has no interesting tag at all", src(fset, at))
+			return
+		}
+		if ov, ok := objOf(info, id).(*types.Var); ok {
+			if fn.isParam(ov) {
+				if callers(func(cs c17CallSite) {
+					m := paramMap(cs)
+					an.store(cs.fn, cs.call, c17Subst(info, key, m), c17Subst(info, key, m), c17Subst(info, ign, m), depth-1)
+				}) {
+					return
+				}
+			} else if !ov.IsField() {
+				// a local: every value it can hold must be nil
+				allNil, n := true, 0
+				culprit := ""
+				ast.Inspect(fn.Decl.Body, func(x ast.Node) bool {
+					switch s := x.(type) {
+					case *ast.AssignStmt:
+						for i, l := range s.Lhs {
+							if objOf(info, l) != ov {
+								continue
+							}
+							n++
+							if len(s.Lhs) != len(s.Rhs) {
+								allNil, culprit = false, src(fset, s)
+							} else if tv, ok := info.Types[ast.Unparen(s.Rhs[i])]; !ok || !tv.IsNil() {
+								allNil, culprit = false, src(fset, s)
+							}
+						}
+					case *ast.ValueSpec:
+						for i, nm := range s.Names {
+							if info.Defs[nm] != ov {
+								continue
+							}
+							n++
+							if len(s.Values) == len(s.Names) {
+								if tv, ok := info.Types[ast.Unparen(s.Values[i])]; !ok || !tv.IsNil() {
+									allNil, culprit = false, src(fset, s)
+								}
+							}
+						}
+					}
+					return true
+				})
+				if allNil && n > 0 {
+					r.OK(c, at.Pos(), "`%s` is false at the store and %s is nil on every path: the way is skipped only when it has no interesting tag at all", src(fset, at), ov.Name())
+					return
+				}
+				r.Bad(c, at.Pos(), "`%s` discounts the tags in `%s` (`%s`): a member way whose interesting tags also appear there gets no feature although the element carries interesting tags", src(fset, at), ov.Name(), culprit)
+				return
+			}
+		}
+	}
+	r.Bad(c, at.Pos(), "`%s` discounts the tags in `%s`: a member way whose interesting tags also appear there gets no feature although the element carries interesting tags", src(fset, at), src(fset, ign))
 }
